@@ -120,7 +120,11 @@ def rename_layer_case(case, r):
     c = dict(case)
     c["nodes"] = [ren(n, r) for n in case["nodes"]]
     c["imps"] = [(ren(u, r), ren(v, r)) for u, v in case["imps"]]
-    c["arch"] = [(n, k, [ren(m, r) for m in p]) for n, k, p in case["arch"]]
+    from .c05 import rx_for
+
+    # a regex-defined layer is re-written for the renamed modules (a regex matching exactly them)
+    c["arch"] = [(n, k, [ren(m, r) for m in ms] if k == "N" else rx_for([ren(m, r) for m in ms])) for n, k, ms in case["_layers"]]
+    c["late"] = 0
     c["spec"] = None
     return c
 
@@ -258,6 +262,21 @@ def run(ctx: Ctx):
             lcases.append(c)
     judge_layers(ctx, s, lcases, (ADV_ANY, ADV_ANY, ADV_CASE))
     s.finish()
+    if not ctx.violations:
+        # name-defined layers next to regex-defined ones (each regex re-written to match exactly the renamed modules). Only
+        # identifier-like images here: a regex text can then never coincide with a module name, and the regex layers merely
+        # accompany the name-defined layers whose attribution the property speaks about
+        s = Stream(ctx, "(b') layer rules mixing name-defined and regex-defined layers under two identifier renamings")
+        mixed = []
+        while len(mixed) < ctx.size(1500, 30000):
+            nodes = gen.random_tree(rng, max_nodes=12, comps=ABSTRACT)
+            if len(nodes) < 4:
+                continue
+            c = c05.make_case(rng, nodes, gen.random_imports(rng, nodes, 10))
+            if c and any(k == "R" for _, k, _ in c["_layers"]) and any(k == "N" for _, k, _ in c["_layers"]):
+                mixed.append(c)
+        judge_layers(ctx, s, mixed, (ADV_IDENT, ADV_IDENT, ADV_CASE))
+        s.finish()
     s = Stream(ctx, "(c) plot labels under two renamings")
     rng = ctx.rng("labels")
     lab = []
